@@ -29,6 +29,8 @@ type C12Case struct {
 	Files []C12File
 	Desc  []string // (kind, path, mutation) of each applied mutation
 	CLI   bool     // also run the built binary
+	// EvalPods: "ns/name" of Pod manifests of the context world, for `k8snetpolicy eval` invocations
+	EvalPods []string `json:",omitempty"`
 }
 
 var c12Seeds struct {
@@ -472,6 +474,11 @@ func genC12(t *rapid.T) *C12Case {
 		_ = yaml.Unmarshal(d.YAML(), &m)
 		docs = append(docs, m)
 	}
+	for i := range w.Workloads {
+		if w.Workloads[i].Kind == "Pod" || isOwned(w.Workloads[i].Kind) {
+			c.EvalPods = append(c.EvalPods, evalPodNames(&w.Workloads[i])[0])
+		}
+	}
 	nctx := len(docs)
 	nm := rapid.IntRange(1, 3).Draw(t, "nmut")
 	for i := 0; i < nm; i++ {
@@ -647,7 +654,15 @@ func checkC12(c *C12Case, st *VStats) *VFailure {
 		return res.f
 	}
 	if c.CLI && os.Getenv("VERIF_CLI") != "" {
-		for _, args := range [][]string{{"list", "--dirpath", dir, "-q"}, {"list", "--dirpath", dir, "--exposure", "-o", "dot", "-q"}, {"diff", "--dir1", dir, "--dir2", base, "-q"}} {
+		cmds := [][]string{{"list", "--dirpath", dir, "-q"}, {"list", "--dirpath", dir, "--exposure", "-o", "dot", "-q"}, {"diff", "--dir1", dir, "--dir2", base, "-q"}}
+		if len(c.EvalPods) > 0 {
+			sns, sn, _ := strings.Cut(c.EvalPods[0], "/")
+			dns, dn, _ := strings.Cut(c.EvalPods[len(c.EvalPods)-1], "/")
+			cmds = append(cmds, []string{"eval", "--dirpath", dir, "-s", sn, "-n", sns, "-d", dn, "--destination-namespace", dns, "-p", "80"},
+				[]string{"eval", "--dirpath", dir, "-s", sn, "-n", sns, "--destination-ip", "fe80::1", "-p", "http", "--protocol", "udp"},
+				[]string{"eval", "--dirpath", dir, "--source-ip", "10.1.2.3", "-d", dn, "--destination-namespace", dns, "-p", "65535", "--fail"})
+		}
+		for _, args := range cmds {
 			_, se, code := runCLI(args...)
 			st.Class("CLI invocation")
 			if code > 1 || code < 0 || strings.Contains(se, "panic:") || strings.Contains(se, "goroutine ") {
